@@ -13,4 +13,8 @@ TEXT = {
   "level_text": "randomized exploration of write/flush/state histories: for deterministic policies a single-goroutine history has exactly one legal chunk partition (modulo cancelled flushes), which a reference model predicts and the broker ledger must equal; concurrent histories are judged by barrier/conservation invariants; interval policies by a latency bound with generous slack",
   "level_note": "trusts the in-memory link and the scripted broker; interval latency uses wall-clock with 2 s slack; schedules are sampled",
   "technique": "model-based property testing (rapid): reference model of the flush policies vs. chunks observed at an in-memory broker"},
+ "C11": {
+  "level_text": "exhaustive enumeration of the finite grid (message type x variant x field path x enum value, the part of the quantifier that is finite) plus randomized search over field contents, each judged by round-trip against an independent canonical form, by cross-codec agreement and by byte-count identities; the generator's registry is checked against the package source so a new type or constant cannot go untested",
+  "level_note": "trusts gogo/protobuf and jsonpb wire formats; the canonical form is written in the harness from the documented resolutions, not derived from the converters",
+  "technique": "property-based testing (rapid) + exhaustive grid by reflection; round-trip and differential (protobuf vs JSON) oracles"},
 }
